@@ -63,15 +63,15 @@ class Stack(Sequence[T]):
         if not self.items:
             return
 
-        removed = self.items[:]
-        self.items.clear()
-
         if self.lengths:
-            item_count, _ = self.lengths[-1]
-            # Mark all items as popped for the latest snapshot
+            item_count, remained_count = self.lengths[-1]
+            # Only items that were on the stack when the latest snapshot was
+            # taken (and have not been popped since) must stay restorable.
+            self.popped.extend(reversed(self.items[:remained_count]))
             self.lengths[-1] = (item_count, 0)
-            self.popped.extend(reversed(removed))
+            self.items.clear()
         else:
+            self.items.clear()
             # No snapshots to restore from; reset everything
             self.popped.clear()
             self.lengths.clear()
